@@ -1,0 +1,30 @@
+//go:build verif
+
+// Contract for the proof verifier of the RFC-6962-shaped accumulator (comment-only). The hash computations
+// (leafSum, nodeSum) and bytes.Equal are opaque calls; the proof set is a slice of slices whose elements are not
+// modelled. Clauses: totality (no index out of range, no division by zero, for every proof length, index and leaf
+// count), and acceptance implies the checks the scheme prescribes: a root was supplied, the index is in range,
+// the proof is not empty, every element of the proof was consumed, and the final comparison with the supplied
+// root succeeded.
+
+package merkletree
+
+//@ func VerifyProof
+//@ option opaque-calls
+//@ option nomerge
+//@ option fresh-loop-slices
+//@ ghost cmpok = false
+//@ ghost cmproot = false
+//@ cut after call Equal #1
+//@ + ghost cmpok = callresult
+//@ + ghost cmproot = len(callarg1) == len(merkleRoot)
+//@ loop 0
+//@ + invariant[complete-subtrees] 1 <= height && height <= 64 && height <= len(proofSet)
+//@ loop 1
+//@ + invariant[left-siblings] 1 <= height && height <= len(proofSet)
+//@ ensures[root-given] result ==> !isnil(merkleRoot)
+//@ ensures[index-range] result ==> proofIndex < numLeaves
+//@ ensures[non-empty] result ==> len(proofSet) >= 1
+//@ ensures[compared] result ==> cmpok && cmproot
+//@ modifies nothing
+//@ end
